@@ -92,6 +92,9 @@ fixed("C09","118e5f7","pin:macro_name_in_character_constant","with '#define a 5'
 
 fixed("C02","9843b33","pin:sta_lda_pair_flags","the peephole rule 'STA x / LDA x' removed the reload although a branch tested its flags (which then were those of an earlier CMP)")
 
+fixed("C02","f386ac4","pin:sta_lda_pair_flags","follow-up of 9843b33: the STA x / LDA x rule looked only one line ahead for the instruction consuming the flags; with further stores in between the reload was still removed")
+fixed("C01","732fd54","pin:short_array_rmw_incdec","'--sa[2]' / 'sa[Y]++' on a short (or pointer) array element selected by a constant or by Y updated the low byte only (family short_array_rmw; found again by C17's enumerated update forms on cartridge-RAM arrays)")
+fixed("C01","9d2cdcc","pin:short_array_rmw","'sa[1] >>= 1' / 'sa[Y] <<= 1' on a short array element selected by a constant or by Y shifted the low byte as an 8-bit value")
 fixed("C09","0bbcb57","pin:macro_parameter_in_character_constant","'#define CHK(x) ((x) == 'x')': the parameter was substituted inside the character constant of the body")
 
 # ---------------- recorded, not repaired (each has a pinned witness in harness/src/pins.rs and a
@@ -111,7 +114,6 @@ C01=[
  ("ysave_in_condition","arr[expr] inside a condition saves Y and pushes A but the taken branch skips the restore (loop counter Y corrupted, stack leak)"),
  ("y_scratch_with_y","'arr[g & 7] = Y' stores the scratch index, not the programmer's Y"),
  ("deref_with_y","'arr[Y] = *p' uses Y = 0 for both accesses"),
- ("short_array_rmw","'sa[1] >>= 1' / '--sa[2]' on a short array element do not update the element correctly"),
  ("wide_compare_le_gt","16-bit '<=' and '>' test the two difference bytes for zero separately (0 <= 0xffff is false)"),
  ("mixed_signedness_follows_left","signedness of 8-bit arithmetic follows the left operand: '(signed + unsigned) >> 6' shifts arithmetically"),
  ("wide_condition_arith","'if (s & s)' on shorts tests the low byte only"),
